@@ -1,7 +1,7 @@
 (* C01 — the server frames and orders requests exactly as the wire says (framing core). *)
 From Coq Require Import String.
 From Coq Require Import List Strings.Byte NArith ZArith Bool Arith.
-Require Import Bytes Show Tables Codec Chunk ChunkProofs TrailerKeys HeaderNameProofs Range RangeProofs DecProofs HeaderScan HeaderScanProofs.
+Require Import Bytes Show Tables Codec Chunk ChunkProofs TrailerKeys HeaderNameProofs Range RangeProofs DecProofs HeaderScan HeaderScanProofs ReqHead ReqHeadProofs.
 Import ListNotations.
 
 (* Chunked framing: for EVERY list of non-empty chunks (any sizes below 16^15, any contents —
@@ -54,6 +54,30 @@ Example C01_scanner_nonvacuous :
   header_scan [B "host: h" ++ CRLF ++ B "X-Fold: a" ++ CRLF ++ B "  b" ++ CRLF ++ CRLF ++ B "body"] =
   B "OK 486f7374=68;582d466f6c64=61202062 | 27".
 Proof. vm_compute. reflexivity. Qed.
+
+(* The request head (req.ReadHeader, compared with `req_head` on every generated head by unit
+   c01.reqhead).  The request line a client writes is read back: method, target (it may contain
+   spaces) and version, and parsing stops behind the line. *)
+Theorem C01_request_line_reads_back : forall m u rest,
+  m <> [] -> ~ In SPC m -> ~ In LF m -> u <> [] -> ~ In LF u ->
+  parse_first_line (m ++ [SPC] ++ u ++ [SPC] ++ bytestr_StrHTTP11 ++ CRLF ++ rest) = FLOk m u true rest.
+Proof. exact first_line_reads_back. Qed.
+Print Assumptions C01_request_line_reads_back.
+
+(* Framing: whenever the head is accepted and some field is a Transfer-Encoding other than
+   identity, the message is chunked (content length -1) — whatever Content-Length fields come
+   before or after it, in whatever letter case. *)
+Theorem C01_transfer_encoding_wins : forall fs st c e,
+  frame_of fs st = inl (c, e) -> existsb is_te_chunked fs = true ->
+  (forall kv, In kv fs -> fst kv <> []) -> c = (-1)%Z.
+Proof. exact transfer_encoding_wins. Qed.
+Print Assumptions C01_transfer_encoding_wins.
+
+Example C01_reqhead_nonvacuous :
+  req_head [B "POST /a b HTTP/1.1" ++ CRLF ++ B "content-length: 5" ++ CRLF ++ B "Transfer-Encoding: chunked" ++ CRLF ++ CRLF ++ B "x"] =
+  B "OK 504f5354 2f612062 1 -1 69" /\
+  req_head [B "GET / HTTP/1.1" ++ CRLF ++ B "Content-Length: 12x" ++ CRLF ++ CRLF] = B "BAD length".
+Proof. vm_compute. split; reflexivity. Qed.
 
 Example C01_nonvacuous :
   enchunk [B "ab"; B "0" ++ CRLF ++ CRLF ++ B "GET /evil"] = B "2" ++ CRLF ++ B "ab" ++ CRLF ++ B "e" ++ CRLF ++ B "0" ++ CRLF ++ CRLF ++ B "GET /evil" ++ CRLF ++ B "0" ++ CRLF
